@@ -54,6 +54,8 @@ def scale_units(sections, package_dir, n_roots, set_out, input_section="RandomIn
 FAMILIES = {
     # name: (base, dict of knob ranges)
     "atoms_power": {"base": "2018_JCP_149_064113/coulomb_atoms/power_bounded.ini", "n": (2, 10), "cost": 1},
+    "atoms_power_many": {"base": "2018_JCP_149_064113/coulomb_atoms/power_bounded.ini", "n": (20, 40), "cost": 2,
+                         "special": True},
     "atoms_cellb": {"base": "2018_JCP_149_064113/coulomb_atoms/cell_bounded.ini", "n": (2, 16), "cells": True,
                     "cost": 3},
     "atoms_cellv": {"base": "2018_JCP_149_064113/coulomb_atoms/cell_veto.ini", "n": (2, 16), "cells": True,
